@@ -29,9 +29,14 @@ extern int mpt_dispatch_set(MPT_STRUCT(dispatch) *disp, uintptr_t id, MPT_TYPE(e
 			return MPT_ERROR(BadArgument);
 		}
 		pos = dst - ((MPT_STRUCT(command) *) (disp->_d._buf + 1));
-		dst->cmd(dst->arg, 0);
-		dst->cmd = 0;
-		dst->arg = 0;
+		/* unlink before notification: handler may use the dispatcher */
+		{
+			int (*fcn)(void *, void *) = dst->cmd;
+			void *ctx = dst->arg;
+			dst->cmd = 0;
+			dst->arg = 0;
+			fcn(ctx, 0);
+		}
 		return pos;
 	}
 	/* id already used */
